@@ -27,7 +27,7 @@ import (
 // state); for every prefix and every letter of the alphabet the history
 // prefix+letter is run once fault-free with the recording always-nil failure
 // function (lock-step with the twin), which yields its consultation trace
-// c_0..c_{n-1}; then for EVERY k < n and every error E of a 2-element set the
+// c_0..c_{n-1}; then for EVERY k < n and every error E of a 3-element set the
 // history is re-run on a fresh instance with the plan "consultation k returns E".
 //
 // Workers are subprocesses: the temp-name supplier and the shim mode are
@@ -35,7 +35,7 @@ import (
 
 const faultWorkerArg = "-faultworker"
 
-var errNames = []string{"sentinel", "permdenied"}
+var errNames = []string{"sentinel", "permdenied", "notexist"}
 
 type ftask struct {
 	Prefix []int
